@@ -580,25 +580,38 @@ func runC13Async(rc *RunCtx) {
 	for i := range bursts {
 		bursts[i] = burst{prod: ch.Intn("prod", nprod), count: 1 + ch.Intn("count", 40), err: ch.Intn("stream", 2) == 1, gap: []time.Duration{0, time.Millisecond, 30 * time.Millisecond, 200 * time.Millisecond}[ch.Intn("gap", 4)]}
 	}
-	res.Config = fmt.Sprintf("logger=asynchronous ring=%d poll=%v sinkDelay=%v producers=%d bursts=%v", ring, poll, sinkDelay, nprod, bursts)
+	// aligned: bursts start at the very instants at which the ring poller wakes up, so that producer and poller
+	// really run concurrently (hardware interleaving, E4 style); otherwise bursts land 1ns off every poll instant
+	// and the run is fully deterministic
+	aligned := ch.Pick("aligned", 9, 1) == 1
+	res.Config = fmt.Sprintf("logger=asynchronous ring=%d poll=%v sinkDelay=%v producers=%d burstsAlignedWithPoller=%v bursts=%v", ring, poll, sinkDelay, nprod, aligned, bursts)
 	res.Digest = hashStrings(res.Config)
 	res.NonTrivial = true
 	outSink, errSink := &safeSink{delay: sinkDelay}, &safeSink{delay: sinkDelay}
 	dropLog, _ := logs.NewPlainStringLogger()
 	sentOut, sentErr := map[string]int{}, map[string]int{}
 	counter := 0
-	var order = map[int][]string{} // producer -> tokens in send order
+	var order = map[int][]string{}  // producer -> tokens in send order
+	var outOrder, errOrder []string // per stream, in send order
 	dl := Bubble(rc.T, func() {
 		lg, err := logs.NewAsynchronousLoggers(outSink, errSink, ring, poll, "sim", "source", dropLog)
 		if err != nil {
 			res.Infra = "cannot build asynchronous logger: " + err.Error()
 			return
 		}
+		if !aligned {
+			time.Sleep(500*time.Microsecond + time.Nanosecond)
+		}
 		for _, b := range bursts {
 			for i := 0; i < b.count; i++ {
 				counter++
 				tok := c13Token(b.prod, counter)
 				order[b.prod] = append(order[b.prod], tok)
+				if b.err {
+					errOrder = append(errOrder, tok)
+				} else {
+					outOrder = append(outOrder, tok)
+				}
 				if b.err {
 					sentErr[tok]++
 					lg.LogError(tok)
@@ -630,6 +643,7 @@ func runC13Async(rc *RunCtx) {
 		n, _ := strconv.Atoi(m[1])
 		reported += n
 	}
+	deliveredSet := map[string]bool{}
 	count := func(content string, want map[string]int, stream string) int {
 		delivered := 0
 		for _, line := range strings.Split(content, "\n") {
@@ -647,6 +661,7 @@ func runC13Async(rc *RunCtx) {
 				if want[m[0]] == 0 {
 					viol("unexpected-message", fmt.Sprintf("%s sink: message not sent to this stream", stream))
 				}
+				deliveredSet[m[0]] = true
 				delivered++
 			}
 		}
@@ -660,7 +675,17 @@ func runC13Async(rc *RunCtx) {
 	// (zerolog diode) may over-count by one when the poller and a producer touch the same slot at the
 	// same moment: that is counted by a probe, it does not lose a message silently.
 	if lost := sent - dOut - dErr; lost > reported {
-		viol("dropped-without-report", fmt.Sprintf("sent %d messages (%d output, %d error), delivered %d + %d, reported dropped %d: %d messages vanished without a report", sent, len(sentOut), len(sentErr), dOut, dErr, reported, lost-reported))
+		// which messages are missing? Overwritten (and reportable) messages are the oldest ones; if the
+		// messages sent last on a stream are missing the ring reader is stuck, which only happens when poller
+		// and producer touch the same stale slot concurrently (zerolog diode, third party; aligned mode only)
+		cls := "dropped-without-report"
+		stuck := func(order []string) bool {
+			return len(order) > 0 && !deliveredSet[order[len(order)-1]]
+		}
+		if aligned && (stuck(outOrder) || stuck(errOrder)) {
+			cls = "ring-reader-stuck-on-stale-slot"
+		}
+		viol(cls, fmt.Sprintf("sent %d messages (%d output, %d error), delivered %d + %d, reported dropped %d: %d messages vanished without a report", sent, len(sentOut), len(sentErr), dOut, dErr, reported, lost-reported))
 	} else if lost < reported {
 		res.ProbeN("async-dropped-overreported", reported-lost)
 	}
